@@ -23,6 +23,13 @@ def _is_perf(m):
 def run(tier, corrupt=0):
     c = vlib.Check(PID, "exploration", tier, selftest=bool(corrupt))
     vlib.build_harness()
+    # design-level termination of the interval iterator (machine M3): a variant function decreases on every step whatever the
+    # hint, and under weak fairness every behaviour reaches "done"
+    r = vlib.tlc_ok("MC_Iterator", cfg="MC_Iterator_live", workers=4, heap="4g", timeout=1800)
+    c.add_tlc(r)
+    vlib.tlc_expect_violation("MC_Iterator", cfg="MC_Iterator_live_nv", workers=2)
+    c.setv("iterator_termination_model", "MC_Iterator_live: PROPERTIES Terminates (<>done under WF) and Decreases (variant) hold on %d "
+                                         "states; a coarser variant is refuted (non-vacuity)" % r.distinct)
     cases = os.path.join(vlib.WORK, "c04_cases.ndjson")
     vlib.tlc_ok("Gen_Grammar", env={"OUT": cases}, heap="8g")
     extremes = os.path.join(vlib.WORK, "c04_extremes.ndjson")
